@@ -1,8 +1,15 @@
 #!/usr/bin/env python3
 """tools/keep_seeded.py <Cxx>: keep the confirmed seeded changes of a property under
 /verif/seeded/<Cxx>-<m>/ (patch.diff, demonstration, the seeding agent's note, meta.json)."""
-import json, os, shutil, sys
+import json, os, re, shutil, sys
 pid = sys.argv[1]
+HIST = "/verif/seeded/HISTORY.json"
+history = json.load(open(HIST)) if os.path.exists(HIST) else {}
+def needs(note):
+    """the paragraphs / bullets of the agent's note that say what the change needs to show up"""
+    paras = [p.strip() for p in re.split(r"\n\s*\n|\n(?=- \*\*)", note) if p.strip()]
+    hit = [p for p in paras if re.search(r"need(s|ed)? to (manifest|show)|to manifest|only (shows|when|for|if)|it needs|needs all|it takes|manifests only|shows up", p, re.I)]
+    return ("\n\n".join(hit) if hit else note.strip())[:2500]
 seed = f"/tmp/seed/{pid}"
 res = json.load(open(f"{seed}/eval.json"))
 for r in res:
@@ -23,7 +30,8 @@ for r in res:
         "property": pid,
         "mutant": m,
         "origin": "fresh sub-agent given only the property text and its own worktree of /repo (no access to /verif)",
-        "needs_to_manifest": note.strip().split("\n\n")[0][:1200] if note else "",
+        "what": note.strip().split("\n")[0].lstrip("# ").strip() if note else "",
+        "needs_to_manifest": needs(note) if note else "",
         "demonstration": {"file": "demo.rs", "place_at": r.get("demo_place"), "without_change": r.get("demo_without_change"), "with_change": r.get("demo_with_change")},
         "existing_tests_of_touched_crates_with_change": r.get("crate_tests_with_change"),
         "what_was_run": [
@@ -33,5 +41,7 @@ for r in res:
         "checks": checks,
         "caught_by": caught_by,
     }
+    if f"{pid}-{m}" in history:
+        meta["history"] = history[f"{pid}-{m}"]
     json.dump(meta, open(f"{d}/meta.json", "w"), indent=1)
     print(pid, m, "kept; caught by", caught_by or "NONE")
